@@ -432,7 +432,7 @@ impl Prop for C16 {
         let n = sp.fields.len();
         // per field menu relative to a base vector: 0 = as in base, then the other presence/value choices
         let choices = |base: usize, fld: &FieldSpec| -> Vec<usize> {
-            let mut all: Vec<usize> = (0..=fld.valid.len().min(3)).collect();
+            let mut all: Vec<usize> = (0..=fld.valid.len()).collect();
             if fld.mandatory {
                 all.retain(|x| *x != 0);
             }
